@@ -1,6 +1,7 @@
 package checks
 
 import (
+	"regexp"
 	"sort"
 	"strings"
 
@@ -148,6 +149,205 @@ func c05HdocLineShared(f *syntax.File) bool {
 	return anyInner && anyOut
 }
 
+// c05HdocBeforeBinaryRHS reports whether f has a binary command whose
+// left-hand side has a here-document with a comment in its body and whose
+// right-hand side starts on a later line than the operator.
+func c05HdocBeforeBinaryRHS(f *syntax.File) bool {
+	var coms []uint
+	syntax.Walk(f, func(n syntax.Node) bool {
+		if c, ok := n.(*syntax.Comment); ok {
+			coms = append(coms, c.Hash.Offset())
+		}
+		return true
+	})
+	found := false
+	syntax.Walk(f, func(n syntax.Node) bool {
+		b, ok := n.(*syntax.BinaryCmd)
+		if !ok || found {
+			return !found
+		}
+		if b.Y.Pos().Line() <= b.OpPos.Line() {
+			return true
+		}
+		syntax.Walk(b.X, func(m syntax.Node) bool {
+			if r, ok := m.(*syntax.Redirect); ok && r.Hdoc != nil {
+				from, to := r.Hdoc.Pos().Offset(), r.Hdoc.End().Offset()
+				for _, c := range coms {
+					if c >= from && c < to {
+						found = true
+					}
+				}
+			}
+			return !found
+		})
+		return !found
+	})
+	return found
+}
+
+// c05TimeStmtComments returns the texts of the comments attached to the
+// statement of a time or coproc clause.
+func c05TimeStmtComments(f *syntax.File) map[string]bool {
+	out := map[string]bool{}
+	add := func(s *syntax.Stmt) {
+		if s != nil {
+			for _, cm := range s.Comments {
+				out[c05Trim(cm.Text)] = true
+			}
+		}
+	}
+	syntax.Walk(f, func(n syntax.Node) bool {
+		switch n := n.(type) {
+		case *syntax.TimeClause:
+			add(n.Stmt)
+		case *syntax.CoprocClause:
+			add(n.Stmt)
+		}
+		return true
+	})
+	return out
+}
+
+// c05AfterBareTimeCoproc reports whether the printed text out has the
+// comment "#text" right after a bare "time" / "time -p" or after
+// "coproc word" on the same line: the parser drops a comment there.
+func c05AfterBareTimeCoproc(out, text string) bool {
+	re := regexp.MustCompile("(?m)(^|[ \\t;&|(`])(time([ \\t]+-p)?|coproc[ \\t]+[^ \\t;&|()<>#]+)[ \\t]*#" + regexp.QuoteMeta(text) + "[ \\t]*$")
+	return re.MatchString(out)
+}
+
+// c05HdocReadLate reports whether f has a here-document whose operator line
+// ends in the "]]" of a test clause and whose body starts more than one line
+// below the operator.
+func c05HdocReadLate(f *syntax.File) bool {
+	rbrack := map[uint]bool{}
+	syntax.Walk(f, func(n syntax.Node) bool {
+		if t, ok := n.(*syntax.TestClause); ok {
+			rbrack[t.Right.Line()] = true
+		}
+		return true
+	})
+	if len(rbrack) == 0 {
+		return false
+	}
+	found := false
+	syntax.Walk(f, func(n syntax.Node) bool {
+		if r, ok := n.(*syntax.Redirect); ok && r.Hdoc != nil && rbrack[r.OpPos.Line()] && r.Hdoc.Pos().Line() > r.OpPos.Line()+1 {
+			found = true
+		}
+		return !found
+	})
+	return found
+}
+
+// c05HdocBodyTakesEarlierComment reports whether a node inside a
+// here-document body (a statement of a substitution, or the substitution
+// itself) has a comment attached that was written before the body.
+func c05HdocBodyTakesEarlierComment(f *syntax.File) bool {
+	found := false
+	syntax.Walk(f, func(n syntax.Node) bool {
+		r, ok := n.(*syntax.Redirect)
+		if !ok || r.Hdoc == nil || found {
+			return !found
+		}
+		from := r.Hdoc.Pos().Offset()
+		syntax.Walk(r.Hdoc, func(m syntax.Node) bool {
+			if c, ok := m.(*syntax.Comment); ok && c.Hash.Offset() < from {
+				found = true
+			}
+			return !found
+		})
+		return !found
+	})
+	return found
+}
+
+// c05HdocStmtHoldsHdoc reports whether f has a statement with a
+// here-document whose operator is followed by a comment on its line and
+// whose command holds another here-document (so that the printer's line
+// counter has passed the operator's line when the comment is due), while a
+// here-document body holds a comment.
+func c05HdocStmtHoldsHdoc(f *syntax.File) bool {
+	var coms []syntax.Pos
+	type span struct{ from, to uint }
+	var bodies []span
+	syntax.Walk(f, func(n syntax.Node) bool {
+		switch n := n.(type) {
+		case *syntax.Comment:
+			coms = append(coms, n.Hash)
+		case *syntax.Redirect:
+			if n.Hdoc != nil {
+				bodies = append(bodies, span{n.Hdoc.Pos().Offset(), n.Hdoc.End().Offset()})
+			}
+		}
+		return true
+	})
+	inner := false
+	for _, c := range coms {
+		for _, b := range bodies {
+			inner = inner || (c.Offset() >= b.from && c.Offset() < b.to)
+		}
+	}
+	if !inner {
+		return false
+	}
+	found := false
+	syntax.Walk(f, func(n syntax.Node) bool {
+		s, ok := n.(*syntax.Stmt)
+		if !ok || found || s.Cmd == nil {
+			return !found
+		}
+		for _, r := range s.Redirs {
+			if r.Op != syntax.Hdoc && r.Op != syntax.DashHdoc {
+				continue
+			}
+			after := false
+			for _, c := range coms {
+				after = after || (c.Line() == r.OpPos.Line() && c.Offset() >= r.Word.End().Offset())
+			}
+			if !after {
+				continue
+			}
+			syntax.Walk(s.Cmd, func(m syntax.Node) bool {
+				if r2, ok := m.(*syntax.Redirect); ok && (r2.Op == syntax.Hdoc || r2.Op == syntax.DashHdoc) {
+					found = true
+				}
+				return !found
+			})
+		}
+		return !found
+	})
+	return found
+}
+
+// c05BinaryRHSTrailingFirst reports whether the right-hand statement of a
+// binary command has a comment attached (Y.Comments) that lies after a
+// comment inside its command.
+func c05BinaryRHSTrailingFirst(f *syntax.File) bool {
+	found := false
+	syntax.Walk(f, func(n syntax.Node) bool {
+		b, ok := n.(*syntax.BinaryCmd)
+		if !ok || found || b.Y == nil || b.Y.Cmd == nil || len(b.Y.Comments) == 0 {
+			return !found
+		}
+		var first uint
+		have := false
+		syntax.Walk(b.Y.Cmd, func(m syntax.Node) bool {
+			if c, ok := m.(*syntax.Comment); ok && (!have || c.Hash.Offset() < first) {
+				first, have = c.Hash.Offset(), true
+			}
+			return true
+		})
+		for _, c := range b.Y.Comments {
+			if have && c.Hash.Offset() > first {
+				found = true
+			}
+		}
+		return !found
+	})
+	return found
+}
+
 // c05BackquoteInlineComments returns the texts of the comments that are the
 // whole content of a backquoted command substitution (`# text`).
 func c05BackquoteInlineComments(f *syntax.File) map[string]bool {
@@ -162,7 +362,7 @@ func c05BackquoteInlineComments(f *syntax.File) map[string]bool {
 }
 
 // c05Class names the known family a divergence belongs to, or "".
-func c05Class(f *syntax.File, cfg synt.Config, got, exp []string) string {
+func c05Class(f *syntax.File, cfg synt.Config, out string, got, exp []string) string {
 	switch {
 	case cfg.Minify:
 		// The printer keeps "`# text`" (a backquoted substitution holding
@@ -193,26 +393,68 @@ func c05Class(f *syntax.File, cfg synt.Config, got, exp []string) string {
 		}
 		return ""
 	default:
-		// BinaryCmd printing drops Y.Comments when Y starts on the
-		// operator's line. The parser puts there the comments between
-		// "for/select ... [in words]" and the first body statement and
-		// the comment after a here-document operator.
+		if cfg.BinNext && c05SameMultiset(got, exp) && c05HdocBeforeBinaryRHS(f) {
+			// "a <<E |\n<body>\nE\nb # c": with BinaryNextLine the
+			// operator goes with the right-hand side, which cannot move
+			// to the next line while a here-document is pending, so
+			// "| b # c" is printed before the body and its comments
+			return "binnext-heredoc-comment-order"
+		}
+		if c05HdocReadLate(f) {
+			// parser defect outside C05: the body of a here-document that
+			// is pending when "]]" ends the line is read one line late,
+			// so the printed program is a different one
+			return "hdoc-after-test-clause-read-late"
+		}
+		if c05SameMultiset(got, exp) && c05HdocBodyTakesEarlierComment(f) {
+			// parser: "a <<E; b # c" + body with $(stmt): the comment of
+			// the first line is attached to the statement in the body
+			return "hdoc-body-stmt-takes-line-comment"
+		}
+		if c05SameMultiset(got, exp) && c05BinaryRHSTrailingFirst(f) {
+			// "a &&\n{ # k1\nb; } <<E # k5": Y.Comments holds k5, and
+			// all of Y.Comments are printed before Y
+			return "binary-rhs-trailing-comment-printed-first"
+		}
+		if c05SameMultiset(got, exp) && c05HdocStmtHoldsHdoc(f) {
+			// "{ a <<E; } <<F # c" with the block printed on several
+			// lines: the comment after "<<F" is no longer on the
+			// printer's current line and is written after the body
+			return "heredoc-line-comment-after-body"
+		}
 		if c05SameMultiset(got, exp) && c05HdocLineShared(f) {
 			// "a <<E; b # c" + body with a comment: the printer puts
 			// every statement on its own line, so the body (and its
 			// comment) moves before the rest of the source line
-			return "heredoc-shared-line-comment-order"
+			return "heredoc-line-comment-after-body"
 		}
 		missing, ok := c05MissingFrom(got, exp)
 		if !ok || len(missing) == 0 {
 			return ""
 		}
-		rhs := c05BinaryRHSComments(f)
+		rhs, tc := c05BinaryRHSComments(f), c05TimeStmtComments(f)
+		inNested, inBare := true, true
 		for _, m := range missing {
-			if !rhs[m] {
-				return ""
-			}
+			inNested = inNested && (rhs[m] || tc[m])
+			inBare = inBare && c05AfterBareTimeCoproc(out, m)
 		}
-		return "binary-rhs-comments-dropped"
+		switch {
+		case inBare:
+			// parser: "time # c" and "coproc a # c" lose the comment
+			// (gotStmtPipe takes the accumulated comments and finds no
+			// statement); the printer writes "time; # c" and
+			// "time\n# c\n)" that way, so the comment is in the output
+			// but not in its parse
+			return "comment-after-bare-time-or-coproc-lost"
+		case inNested:
+			// BinaryCmd printing drops Y.Comments when Y starts on the
+			// operator's line, and the statement after "time"/"coproc"
+			// is printed without its Stmt.Comments. The parser puts
+			// there the comments between "for/select ... [in words]" and
+			// the first body statement and the comment after a
+			// here-document operator.
+			return "nested-stmt-comments-dropped"
+		}
+		return ""
 	}
 }
